@@ -4,6 +4,7 @@ API-level observation trace and the end state.  Verdicts are NOT taken here: the
 
 Child entry point:  python -m engine.sim.harness <cases.jsonl> <out.jsonl>
 """
+import functools
 import os, sys, json, gc, random, threading, warnings, struct, io, traceback, dis
 
 from . import esim, tasks
@@ -226,8 +227,10 @@ class Scenario:
             args = [tid, kind, arg]
             if kind == "unpicklable_arg":
                 args = [tid, "ok", tasks.Unpicklable("arg %s" % tid)]
-            elif kind == "oserror_arg":
-                args = [tid, "ok", tasks.UnpicklableOS("arg %s" % tid)]
+            elif kind in ("oserror_arg", "ebadf_arg", "epipe_arg"):
+                args = [tid, "ok", tasks.UnpicklableOS("arg %s" % tid, {"oserror_arg": 2, "ebadf_arg": 9, "epipe_arg": 32}[kind])]
+            elif kind == "partial_kw":
+                args = [tid]
             elif kind == "unloadable_arg":
                 args = [tid, "ok", tasks.Unloadable("arg %s" % tid)]
             elif kind == "too_large":
@@ -239,6 +242,8 @@ class Scenario:
             elif kind == "probe":
                 args = [tid, "ok", None]
             fn = tasks.body
+            if kind == "partial_kw":          # a callable with bound keyword arguments
+                fn = functools.partial(tasks.body_kw, salt=tid * 3 + 1, kind="ok")
             if kind == "wrapped" and u != "u1":
                 kind, args = "ok", [tid, "ok", arg]          # one thread only mutates and sends the shared wrapped object
             if kind == "wrapped":
@@ -260,7 +265,8 @@ class Scenario:
             self.futs[tid] = f
             if kind == "wrapped":
                 self.__dict__.setdefault("wrapped_futs", []).append(f)
-            S.obs(ev="submit", u=u, t=tid, kind=kind, eid=id(e))
+            # (the monitor judges by what the task does: variants of a kind are reported under the kind)
+            S.obs(ev="submit", u=u, t=tid, kind={"ebadf_arg": "oserror_arg", "epipe_arg": "oserror_arg", "partial_kw": "ok"}.get(kind, kind), eid=id(e))
             f.add_done_callback(lambda fut, tid=tid: self._resolved(tid, fut))
         elif k == "cancel":
             if op[1] not in self.futs and op[1] not in self.rejected:
@@ -414,7 +420,7 @@ class Scenario:
             if isinstance(v, list) and v[:1] == ["tagged"]:
                 v = ["tagged", v[1], v[2], tasks.seen_as(v[3])]
             S.obs(ev="resolve", t=tid, outcome="result", good=(v == tasks.value_of(tid) or (isinstance(v, list) and v[:2] in (["value", tid], ["pid", tid], ["pickler", tid], ["tagged", tid]))
-                                                            or v == ["wrapped", tid, tid]),
+                                                            or v == ["wrapped", tid, tid] or v == ["kw", tid, tid * 3 + 1]),
                   value=repr(v)[:60], by=esim.me())
         else:
             cause = getattr(ex, "__cause__", None)
@@ -524,6 +530,11 @@ def run_case(case):
     tasks.INIT.clear()
     pe.Future = make_future_class()
     scn = case["scn"]
+    warnings.resetwarnings()
+    warnings.simplefilter("ignore")
+    if scn["exec"].get("strict_resize"):
+        # scenario input: the user turned this one warning into an error (as -W error::UserWarning or pytest's filterwarnings do)
+        warnings.filterwarnings("error", message="Trying to resize an executor with running jobs")
     sc = Scenario(scn)
     pol = Policy(case.get("policy", {}), case.get("seed", 0))
     sc.policy = pol
